@@ -14,5 +14,6 @@ CONSTANTS
   TaxNum = 1
   TaxDen = 10
   Kinds = {"seed", "err", "bad"}
+  MaxZH = 0
 CONSTRAINT GenConstraint
 CHECK_DEADLOCK FALSE
